@@ -343,6 +343,49 @@ example : (Policy.mk Dur.dmax none Dur.dmax).wf ∧
     outputs .fixed (init ⟨Dur.dmax, none, Dur.dmax⟩) 3 = [.delay Dur.dmax, .delay Dur.dmax, .delay Dur.dmax] := by
   decide
 
+/-! ### The user of the policy: `AsyncSecureChannel::connect` -/
+
+/-- with one iterator for the whole call, a limited policy with `r` retries left gives up after
+exactly `r + 1` further failed attempts (given enough fuel) -/
+theorem connectAttempts_limited (p : Policy) (m : Nat) (hU : m < U32) (r : Nat) :
+    ∀ (s : Backoff) (made extra : Nat), s.maxRetries = some m → s.count + r = m →
+      connectAttempts false p (r + 1 + extra) s made = some (made + r + 1) := by
+  induction r with
+  | zero =>
+    intro s made extra hm hc
+    have hn := next_exhausted s m hm (by omega)
+    rw [show 0 + 1 + extra = extra + 1 by omega]
+    simp only [connectAttempts, Bool.false_eq_true, if_false, hn]
+  | succ r ih =>
+    intro s made extra hm hc
+    have hn := next_limited s m hm (by omega) hU
+    rw [show r + 1 + 1 + extra = (r + 1 + extra) + 1 by omega]
+    simp only [connectAttempts, Bool.false_eq_true, if_false, hn]
+    rw [ih _ (made + 1) extra (by simpa using hm) (by simp only; omega)]
+    congr 1; omega
+
+/-- **connect_respects_limit**: against a server on which every attempt fails, `connect` makes
+exactly `limit + 1` attempts (the first one and `limit` retries) and then gives up. -/
+theorem connect_respects_limit (p : Policy) (L : Nat) (hl : p.limit = some L) (hU : L < U32) (extra : Nat) :
+    connectAttempts false p (L + 1 + extra) (init p) 0 = some (L + 1) := by
+  have := connectAttempts_limited p L hU L (init p) 0 extra (by simpa [init] using hl) (by simp [init])
+  simpa using this
+
+/-- The pinned `connect` created a new iterator in every round: with any retry limit above zero it
+never gives up, whatever the fuel. -/
+theorem C37_counterexample_connect_never_gives_up (p : Policy) (L : Nat) (hl : p.limit = some (L + 1))
+    (hU : L + 1 < U32) : ∀ (fuel : Nat) (b : Backoff) (made : Nat), connectAttempts true p fuel b made = none := by
+  intro fuel
+  induction fuel with
+  | zero => intro b made; rfl
+  | succ fuel ih =>
+    intro b made
+    have hn := next_limited (init p) (L + 1) (by simpa [init] using hl) (by simp [init]) hU
+    simp only [connectAttempts, if_true, hn]
+    exact ih _ _
+
+example : connectAttempts false defaultPolicy 20 (init defaultPolicy) 0 = some 11 := by decide
+
 /-! ### The two defects of the pinned source (repaired by the `fix:` commit) -/
 
 /-- `current_sleep * 2` panics as soon as the current delay is more than half of `Duration::MAX`
